@@ -1,1 +1,2 @@
+import GinjaxVerif.Properties.C02
 import GinjaxVerif.Properties.C19
